@@ -43,7 +43,7 @@ void Hashmaster::getStringHash(const u8_t *string, u32_t length,
           __CPROVER_loop_invariant(wv_hl_n == __CPROVER_loop_entry(wv_hl_n) + ((length - nnow) >> 6))
           __CPROVER_loop_invariant((u64_t)this->totalsize == 8ull * (length - nnow))
           __CPROVER_loop_invariant((wv_hl_watch >= __CPROVER_loop_entry(wv_hl_n) && wv_hl_watch < wv_hl_n) ==>
-                                   wv_hl_wbyte == string[64 * (wv_hl_watch - __CPROVER_loop_entry(wv_hl_n)) + wv_g])
+                                   wv_hl_wptr == string + 64 * (size_t)(wv_hl_watch - __CPROVER_loop_entry(wv_hl_n)))
           __CPROVER_decreases(nnow))
     getHash(string + (length - nnow));
   getHash(string + (length - nnow), nnow);
